@@ -702,6 +702,34 @@ def rule_redirect_shortcut(run):
     run.end()
 
 
+def rule_bound_kept(run):
+    run.begin(
+        "C03.bound",
+        "statements bound to a statement are lowered with it - also when a nested statement list is flattened into its "
+        "parent: wherever out.CodeBlock takes over the statements of a nested block, it takes over that block's bound "
+        "statements first (the test of an `if` with a compile-time-constant result is bound to the taken branch: the "
+        "run-time assignments made by a function called in the test belong to the program)",
+        floor=1,
+    )
+    om = run.idx.mod("cohdl/_compiler/frontend/_prepare_ast_out.py")
+    f = om.func("CodeBlock.__init__")
+    n = 0
+    for c in walk_local(f.node):
+        if isinstance(c, ast.Call) and isinstance(c.func, ast.Attribute) and c.func.attr in ("extend", "append") and c.args and isinstance(c.args[0], ast.Call) \
+                and isinstance(c.args[0].func, ast.Attribute) and c.args[0].func.attr == "statements":
+            nested = dotted(c.args[0].func.value)
+            n += 1
+            blk = getattr(om.parents.of(om.parents.of(c)), om.parents.field_of(om.parents.of(c)))
+            before = [x for x in blk if x.lineno < c.lineno]
+            ok = any(isinstance(y, ast.Call) and isinstance(y.func, ast.Attribute) and y.func.attr in ("extend", "append") and y.args and isinstance(y.args[0], ast.Call)
+                     and isinstance(y.args[0].func, ast.Attribute) and y.args[0].func.attr == "bound_statements" and dotted(y.args[0].func.value) == nested for x in before for y in ast.walk(x))
+            run.ob(ok, "out.CodeBlock.__init__", file=om.rel, line=c.lineno, detail=f"flatten-{nested}", expected=f"{nested}.bound_statements() taken over before {nested}.statements()",
+                   found="ok" if ok else f"only `{src(c)}`: what is bound to the nested block (a constant if's test and the assignments made while evaluating it) is dropped")
+    if n < 1:
+        raise AnalysisError("out.CodeBlock.__init__: flattening of nested blocks not found")
+    run.end()
+
+
 def rule_views(run):
     from ..rules import views
     views.run_rule(run, "F-VIEW")     # an assignment target that is a (nested) slice / element addresses exactly those bits, every time it is written
@@ -712,7 +740,7 @@ def rule_returns_always(run):
     c10.rule_returns_always(run)      # statements (assignments) after a compound statement are dropped iff it returns on EVERY path
 
 
-RULES = [rule_chain, rule_pushed, rule_alias, rule_index_capture, rule_if_merge, rule_writeback, rule_with_exit, rule_std_assignable, rule_refspec, rule_all_open_blocks, rule_select_default, rule_views, rule_returns_always, rule_redirect_shortcut]
+RULES = [rule_chain, rule_pushed, rule_alias, rule_index_capture, rule_if_merge, rule_writeback, rule_with_exit, rule_std_assignable, rule_refspec, rule_all_open_blocks, rule_select_default, rule_views, rule_returns_always, rule_redirect_shortcut, rule_bound_kept]
 LEVEL = "other"
 EXPLANATION = (
     "Table/shape analysis of the assignment pipeline for all programs at once: the nine hand-written stages that carry "
